@@ -674,6 +674,50 @@ def _serialization_plan(cls: "type[ArrowSerializableDataclass]") -> _Serializati
     return plan
 
 
+def _dictionary_free_build_type(arrow_type: pa.DataType, *, under_struct: bool = False) -> tuple[pa.DataType, bool]:
+    """Return ``arrow_type`` with dictionary types below a struct replaced by their value type.
+
+    pyarrow's Python-to-Arrow converter fills the children of a *null* struct
+    slot with placeholder values; for a dictionary-encoded child that is index
+    0 of a possibly empty dictionary, which ``validate(full=True)`` -- and
+    therefore every reader of these bytes -- rejects ("Dictionary indices
+    invalid").  A nested optional dataclass holding an Enum hits exactly that
+    whenever it is ``None``.  Building the column with plain value types and
+    casting to the declared type yields null children instead.
+
+    Returns:
+        ``(build_type, changed)`` -- ``changed`` is False when no dictionary
+        type sits below a struct, in which case the column is built directly.
+
+    """
+    if pa.types.is_dictionary(arrow_type):
+        if under_struct:
+            return arrow_type.value_type, True
+        return arrow_type, False
+    if pa.types.is_struct(arrow_type):
+        fields = []
+        changed = False
+        for i in range(arrow_type.num_fields):
+            f = arrow_type.field(i)
+            child, child_changed = _dictionary_free_build_type(f.type, under_struct=True)
+            changed = changed or child_changed
+            fields.append(pa.field(f.name, child, nullable=f.nullable))
+        return (pa.struct(fields), True) if changed else (arrow_type, False)
+    if pa.types.is_map(arrow_type):
+        key, key_changed = _dictionary_free_build_type(arrow_type.key_type, under_struct=under_struct)
+        item, item_changed = _dictionary_free_build_type(arrow_type.item_type, under_struct=under_struct)
+        if key_changed or item_changed:
+            return pa.map_(key, item), True
+        return arrow_type, False
+    if pa.types.is_list(arrow_type):
+        value_field = arrow_type.value_field
+        child, child_changed = _dictionary_free_build_type(value_field.type, under_struct=under_struct)
+        if child_changed:
+            return pa.list_(pa.field(value_field.name, child, nullable=value_field.nullable)), True
+        return arrow_type, False
+    return arrow_type, False
+
+
 class _RowEncoder(NamedTuple):
     """Per-class inputs for building a one-row RecordBatch (see ``_row_encoder``)."""
 
@@ -682,6 +726,9 @@ class _RowEncoder(NamedTuple):
     types: tuple[pa.DataType, ...]
     nulls: tuple["pa.Array[Any]", ...]
     """A length-1 all-null array per column, reused for every unset field."""
+    build_types: tuple[pa.DataType | None, ...]
+    """Per column: the type to build with before casting to the declared type,
+    or ``None`` to build directly (see ``_dictionary_free_build_type``)."""
 
 
 def _row_encoder(cls: "type[ArrowSerializableDataclass]") -> _RowEncoder:
@@ -709,11 +756,16 @@ def _row_encoder(cls: "type[ArrowSerializableDataclass]") -> _RowEncoder:
         return cast("_RowEncoder", cached)
     schema = cls.ARROW_SCHEMA
     types = tuple(field.type for field in schema)
+    build_types: list[pa.DataType | None] = []
+    for arrow_type in types:
+        build_type, changed = _dictionary_free_build_type(arrow_type)
+        build_types.append(build_type if changed else None)
     encoder = _RowEncoder(
         schema=schema,
         names=tuple(schema.names),
         types=types,
         nulls=tuple(pa.nulls(1, type=arrow_type) for arrow_type in types),
+        build_types=tuple(build_types),
     )
     cls._cached_row_encoder = encoder
     return encoder
@@ -1344,7 +1396,11 @@ class ArrowSerializableDataclass:
             if value is None:
                 arrays.append(encoder.nulls[index])
             else:
-                arrays.append(pa.array([value], type=encoder.types[index]))
+                build_type = encoder.build_types[index]
+                if build_type is None:
+                    arrays.append(pa.array([value], type=encoder.types[index]))
+                else:
+                    arrays.append(pa.array([value], type=build_type).cast(encoder.types[index]))
         return pa.RecordBatch.from_arrays(arrays, schema=encoder.schema)
 
     def serialize(self, dest: IOBase) -> None:
